@@ -368,7 +368,10 @@ def runCase (st : DSt) : List String :=
         parentOf }
     let viewRes : View :=
       { st, outs := fun lid i => match resOf lid with | some (_, _, rs, _) => rs.s.out i | none => .nd,
-        args := fun lid i => match resOf lid with | some (_, _, rs, _) => rs.s.args i | none => [],
+        args := fun lid i => match resOf lid, cutOf lid with
+          | some (_, _, _, "notrun"), some c => c.s.args i     -- nothing ran: the inputs of the first run stand
+          | some (_, _, rs, _), _ => rs.s.args i
+          | none, _ => [],
         parentOf }
     -- files
     let rootId := st.n
